@@ -79,3 +79,41 @@ pub fn c19_race2() {
     vsym::check("newer.race-version-grew", fin.version > cur);
     vsym::cover("newer.race-a-last", fin.value == "a"); vsym::cover("newer.race-b-last", fin.value == "b");
 }
+
+/// replicas: a sequence of plain / versioned writes (any version in [0, cur+1]: below, at and above the current one) issued on
+/// the primary of a cluster, each replicated before the next; no write is refused and every replica ends with the primary's value
+pub fn c19_replicas() {
+    use crate::harness::cluster::*;
+    let secondaries = vsym::param("secondaries", 1);
+    let mut cl = mk_cluster(secondaries);
+    let (mut admin, mut arx) = admin_client(&cl.nodes[0].dbs);
+    process_request("create-db d tok newer", &cl.nodes[0].dbs, &mut admin);
+    vsym::assume(cl.settle(80, false).is_some());
+    let (mut c, mut rx) = db_client(&cl.nodes[0].dbs, "d");
+    process_request("set k a", &cl.nodes[0].dbs, &mut c);
+    process_request("set k b", &cl.nodes[0].dbs, &mut c);
+    process_request("set k c", &cl.nodes[0].dbs, &mut c);      // version 2: base versions 0 and 1 are stale
+    vsym::assume(cl.settle(120, false).is_some());
+    let steps = vsym::param("writes", 2);
+    let all_orders = vsym::param("orders", 0) == 1;
+    let mut i = 0;
+    while i < steps {
+        let cur = peek(&cl.nodes[0].dbs, "d", "k").unwrap().version;
+        let versioned = vsym::any_bool("versioned");
+        let val = ["w", &i.to_string()].concat();
+        let line = if versioned { let v = vsym::any_i32("ver"); vsym::assume(v >= 0 && v <= cur + 1); vsym::cover("replicas.stale-version", v < cur); ["set-safe k ", &v.to_string(), " ", &val].concat() } else { ["set k ", &val].concat() };
+        let r = process_request(&line, &cl.nodes[0].dbs, &mut c);
+        vsym::check("replicas.never-refused-on-primary", !is_error(&r) && !is_version_error(&r));
+        let settled = cl.settle(120, all_orders);
+        vsym::check("replicas.quiesces", settled.is_some());
+        let p = peek(&cl.nodes[0].dbs, "d", "k").unwrap();
+        let mut s = 1;
+        while s < cl.nodes.len() {
+            let q = peek(&cl.nodes[s].dbs, "d", "k");
+            vsym::check("replicas.same-value-as-primary", match &q { Some(q) => q.value == p.value, None => false });
+            vsym::check("replicas.same-version-as-primary", match &q { Some(q) => q.version == p.version, None => false });
+            s += 1;
+        }
+        i += 1;
+    }
+}
